@@ -82,6 +82,11 @@ def run_case(case):
                 if e["k"] == "f":
                     os.lchown(os.path.join(root, e["p"]), 1234, 4321)      # (a destination that already has the source's owner is not chowned)
             res["counters"]["runs-with-refused-chown"] = 1
+        vr = _r2.Random(case["plan"]["sched_seed"] ^ 0x77).random()
+        if vr < 0.3:
+            # what is logged has nothing to do with what is synced
+            extra = [["-v"], ["-vv"], ["-vvv"]][int(vr * 10) % 3] + extra
+            res["counters"]["verbose-runs"] = 1
         plan = dict(case["plan"])
         plan.update({"log_mode": "full", "rules": rules, "pct_horizon": 600})
         args = ["--driver", case["driver"], "-w", str(case["workers"]), "--block-size", str(case["bs"])] + (["--fsync"] if case["use"] else []) + extra + (["-r", "src", "dst"] if not case.get("single") else [case["single"], "dst-file"])
